@@ -360,7 +360,7 @@ func C12() int {
 		"{one request, flush in between}; a second well-formed trace re-using the same span ids is ingested alongside. On a freshly booted server the trace search, the span tree of each trace and the "+
 		"generated dependency graph are compared with the model; malformed forests must yield an error or a partial view without hang, crash or foreign spans. non-trivial = forest with ≥2 services or a malformed link", n, pow(n+2, n))
 	rep.Assume = []string{"span times are 'now − 3 s' so that both the ingest-time based search window and the trace's own start/end fall inside the queried window",
-		"RED metrics (computed by a background loop over the last five minutes) and traces larger than one result page are not covered"}
+		"RED metrics (computed by a background loop over the last five minutes) are not covered; result pages: N one-span traces for N around the page size (50), all pages walked, every trace on exactly one page"}
 	pool := serverPool()
 	pool.RecycleEvery = 1
 	d := &Driver[c12Job]{Rep: rep, Pool: pool,
@@ -402,6 +402,7 @@ func C12() int {
 		},
 	}
 	d.Drive()
+	c12Paging(rep, d.Budget)
 	return rep.Finish()
 }
 
@@ -415,6 +416,15 @@ func pow(a, b int) int {
 
 func init() {
 	Registry["C12"] = C12
-	Replayers["C12"] = MakeReplayer[c12Job]("C12", "exploration", serverPool, c12Run)
+	Replayers["C12"] = func(doc json.RawMessage) int {
+		var probe struct {
+			Traces int `json:"traces"`
+		}
+		_ = json.Unmarshal(doc, &probe)
+		if probe.Traces > 0 {
+			return MakeReplayer[c12PageJob]("C12", "exploration", serverPool, c12PageRun)(doc)
+		}
+		return MakeReplayer[c12Job]("C12", "exploration", serverPool, c12Run)(doc)
+	}
 	_ = strings.Join
 }
